@@ -18,6 +18,7 @@ func c07(c *Ctx) {
 	r.Rule("R-C07.3", "the only non-nil connection protocol.Dial returns is tls.Client(_, cfg) with cfg an element of ClientConfigs' result, after a successful handshake; attemptFetch returns no connection")
 	r.Rule("R-C07.4", "in Dial's loop over the client configurations a failed handshake leads back to the loop header (every chain is tried), not to a return")
 	r.Rule("R-C07.5", "attemptFetch returns the ErrNotAuthorized sentinel itself on the common-name arm; Dial returns attemptFetch's error unwrapped or joined; the certificate-storing HandleFetchNodeCredentialsResponse call is reached only if attemptFetch succeeded")
+	r.Rule("R-C07.8", "each client configuration has its own ALPN list: no append whose result reaches a tls.Config.NextProtos store inside the per-chain loop has a base slice defined outside that loop (a loop-invariant base with spare capacity is one backing array shared by all configurations: the last certificate selector written wins)")
 	r.Rule("R-C07.7", "whichever chain the server still recognises: the GetClientCertificate callback of every client configuration selects its certificate by ranging over all stored chains and all CAs the server lists, under byte-equality of the chain's CA subject with the listed CA (not by a single key captured from the enclosing loop)")
 	r.Rule("R-C07.6", "chain filters on both TLS sides (R-C09.4, evaluated here)")
 	r.NotDecided = append(r.NotDecided, "that a registered node always connects (liveness)", "rogue-server behaviour inside crypto/tls", "the application-controlled WithTlsVerifyOptionsFunc override")
@@ -354,6 +355,7 @@ func c07(c *Ctx) {
 // ClientConfigs.
 func c07ClientCert(c *Ctx, CC *ssa.Function) {
 	p, r := c.P, c.R
+	c07OwnProtos(c, CC)
 	var cb *ssa.Function
 	for _, st := range storesToField(CC, "tls.Config", "GetClientCertificate") {
 		cb = fnValue(st.Val)
@@ -411,5 +413,65 @@ func c07ClientCert(c *Ctx, CC *ssa.Function) {
 	}
 	if n == 0 {
 		r.Unk("R-C07.7", name+" certificate returns", p.Pos(cb.Pos()), "the callback never returns a certificate")
+	}
+}
+
+
+// c07OwnProtos: R-C07.8.
+func c07OwnProtos(c *Ctx, CC *ssa.Function) {
+	p, r := c.P, c.R
+	sts := storesToField(CC, "tls.Config", "NextProtos")
+	if len(sts) == 0 {
+		r.Unk("R-C07.8", "tls.ClientConfigs NextProtos stores", p.Pos(CC.Pos()), "no store to tls.Config.NextProtos")
+		return
+	}
+	for i, st := range sts {
+		construct := fmt.Sprintf("tls.ClientConfigs NextProtos store#%d", i)
+		scc := sccOf(st.Block())
+		if scc == nil {
+			r.OK("R-C07.8", construct, p.Pos(st.Pos()), "not inside a loop")
+			continue
+		}
+		bad := ""
+		seen := map[ssa.Value]bool{}
+		var walk func(v ssa.Value)
+		walk = func(v ssa.Value) {
+			v = core.Strip(v)
+			if seen[v] {
+				return
+			}
+			seen[v] = true
+			if ph, ok := v.(*ssa.Phi); ok {
+				for _, e := range ph.Edges {
+					walk(e)
+				}
+				return
+			}
+			base, _, isApp := appendParts(v)
+			if !isApp {
+				return
+			}
+			b := core.Strip(base)
+			if core.IsNilConst(b) {
+				return
+			}
+			// where is the base defined?
+			var defBlock *ssa.BasicBlock
+			if in, ok := b.(ssa.Instruction); ok {
+				defBlock = in.Block()
+			}
+			if defBlock == nil || !scc[defBlock] {
+				// capacity-exact bases always reallocate
+				if sl, ok := b.(*ssa.Slice); ok && sl.Max != nil && sl.Max == sl.High {
+					return
+				}
+				bad = "append at " + p.Pos(v.Pos()) + " extends " + core.ValueName(b) + ", which is defined outside the per-chain loop"
+				return
+			}
+			walk(b)
+		}
+		walk(st.Val)
+		r.Check(bad == "", "R-C07.8", construct, p.Pos(st.Pos()), "every append feeding this list starts from a slice made in the same iteration",
+			bad+": configurations built in different iterations can share one backing array, so all of them carry the last certificate selector")
 	}
 }
